@@ -227,6 +227,16 @@ VARIANTS = [
             "            return msg.meta[\"wire\"]\n        if raw_body is not None:"},
     {"name": "P R7 serializer returns the written buffer through a local", "file": SERM, "expect": "silent",
      "old": "        return writer.copy_buffer()\n", "new": "        out = writer\n        return out.copy_buffer()\n"},
+    {"name": "R5 stand-in PacketAck sent under the endpoint's own ID (revert of 01b307f)", "file": CIRC, "expect": "C04.R5",
+     "old": "            wire_id = fwd_injections.get_effective_id(message.packet_id)\n            fwd_injections.track_seen(wire_id)\n"
+            "            self.send_acks(effective_acks, message.direction, packet_id=wire_id)\n",
+     "new": "            self.send_acks(effective_acks, message.direction, packet_id=message.packet_id)\n"},
+    {"name": "R5 stand-in PacketAck translated but not tracked", "file": CIRC, "expect": "C04.R5",
+     "old": "            fwd_injections.track_seen(wire_id)\n            self.send_acks(", "new": "            self.send_acks("},
+    {"name": "P R5 stand-in wire ID local renamed", "expect": "silent", "edits": [
+        {"file": CIRC, "old": "            wire_id = fwd_injections.get_effective_id(message.packet_id)\n            fwd_injections.track_seen(wire_id)\n",
+         "new": "            standin_id = fwd_injections.get_effective_id(message.packet_id)\n            fwd_injections.track_seen(standin_id)\n"},
+        {"file": CIRC, "old": "packet_id=wire_id)", "new": "packet_id=standin_id)"}]},
     # ------------------------------------------------------------------ documented limits
     {"name": "X forward shift boundary < -> <= (value-level)", "file": CIRC, "expect": "miss",
      "old": "if new_id < packet_id and new_id not in self.injections:", "new": "if new_id <= packet_id and new_id not in self.injections:"},
